@@ -2,6 +2,7 @@ mod common;
 mod alloc;
 mod fes;
 mod gates;
+mod props;
 mod rt;
 
 fn main() {
@@ -16,6 +17,8 @@ fn main() {
         ("fes", "replay") => fes::replay(&args[2..]),
         ("fes", "record") => fes::record(&args[2..]),
         ("rt", "replay") => rt::replay(&args[2..]),
+        ("props", "replay") => props::replay(&args[2..]),
+        ("props", "slots") => props::replay_slots(&args[2..]),
         ("gates", "replay") => gates::replay(&args[2..]),
         ("alloc", "replay") => alloc::replay(&args[2..]),
         ("alloc", "record") => alloc::record(&args[2..]),
